@@ -221,7 +221,7 @@ struct O { mv: vec2<f32>, vm: vec3<f32>, mm: mat2x2<f32>, t: mat2x3<f32> }
   o[1] = vec3<f32>(1.0, 2.0, 3.0) * m;
 }`,
 		// columns (1,0,0) (0,1,0) (0,0,1) (1,1,1), stride 16
-		in: map[B][]byte{b0(0): bs(1.0, 0.0, 0.0, 0.0, 0.0, 1.0, 0.0, 0.0, 0.0, 0.0, 1.0, 0.0, 1.0, 1.0, 1.0, 0.0), b0(1): zeros(32)},
+		in:   map[B][]byte{b0(0): bs(1.0, 0.0, 0.0, 0.0, 0.0, 1.0, 0.0, 0.0, 0.0, 0.0, 1.0, 0.0, 1.0, 1.0, 1.0, 0.0), b0(1): zeros(32)},
 		want: map[B][]any{b0(1): {5.0, 6.0, 7.0, 0.0, 1.0, 2.0, 3.0, 6.0}}},
 
 	{name: "compound_assign_incdec", wgsl: `
@@ -315,6 +315,16 @@ const KV = vec2<u32>(3u, 4u);
 			uint32(0), uint32(0), uint32(0x70000000), uint32(0xF0000000),
 			uint32(0xF8000001), uint32(0x00000FF0), uint32(0), uint32(0xFFFFFFFF),
 			uint32(0x7FFFFFEE), uint32(0xFFFF00FE), uint32(0xFFFFFFF9), uint32(1)}}},
+	{name: "shift_count_modulo_32", wgsl: `
+@group(0) @binding(0) var<storage, read> a: array<i32, 2>;
+@group(0) @binding(1) var<storage, read> u: array<u32, 2>;
+@group(0) @binding(2) var<storage, read_write> o: array<i32, 4>;
+@compute @workgroup_size(1) fn main() {
+  o[0] = a[0] << u[0]; o[1] = a[0] >> u[0]; o[2] = i32(bitcast<u32>(a[1]) >> u[1]); o[3] = a[1] >> u[1];
+}`,
+		// WGSL: the shift count is taken modulo 32 at run time: 33 -> 1, 63 -> 31
+		in:   map[B][]byte{b0(0): bs(-16, iMin), b0(1): bs(uint32(33), uint32(63)), b0(2): zeros(16)},
+		want: map[B][]any{b0(2): {-32, -8, 1, -1}}},
 }
 
 func TestConformanceGroup1(t *testing.T) {
